@@ -823,9 +823,7 @@ func (vc *VC) loopHead(st *State, li *loopInfo, spec *LoopSpec, pos token.Pos, r
 	}
 	if li.allHeap {
 		vc.havocAllHeap(st)
-		for g := range st.ghost {
-			st.ghost[g] = vc.fresh("g_"+g, vc.eng.ghostSort(g))
-		}
+		vc.havocAllGhosts(st)
 	} else {
 		for k := range li.heapKeys {
 			es, ok := vc.heapSort[k]
@@ -867,7 +865,11 @@ func (vc *VC) loopHead(st *State, li *loopInfo, spec *LoopSpec, pos token.Pos, r
 		// (ghosts not yet mentioned on this path still denote their entry value: they must be havocked as well)
 		for g := range li.ghosts {
 			if _, declared := vc.eng.specs.Ghosts[g]; declared {
+				before := vc.ghostGet(st, g)
 				st.ghost[g] = vc.fresh("g_"+g, vc.eng.ghostSort(g))
+				if vc.eng.ghostSort(g) == "Int" {
+					vc.assume(st, fmt.Sprintf("(>= %s %s)", st.ghost[g], before))
+				}
 			}
 		}
 		if len(li.heapKeys) > 0 {
